@@ -5,7 +5,8 @@
 //
 // A case is a program
 //
-//	prog (c <Option>:<seed>*)+
+//	prog (c <Option>:<seed>*)+      every listed instance is a new Option value
+//	progr (c <Option>:<seed>*)+     identical instances are ONE Option value applied to several clients
 //
 // = clients constructed one after the other, each with a list of option
 // instances (the option's parameters are derived from the seed).  For the
@@ -114,6 +115,9 @@ func (e *env) mk(i inst) opcua.Option {
 			Dialer:    &net.Dialer{Timeout: dur, KeepAlive: time.Duration(s%3) * time.Second},
 			ClientACK: &uacp.Acknowledge{ReceiveBufSize: 1000 + s%3, SendBufSize: 2000 + s%3, MaxChunkCount: s % 4, MaxMessageSize: 4000 + s%2},
 		}
+		if nilACKDialer(s) {
+			d.ClientACK = nil // "use the defaults" (uacp.NewConn falls back to DefaultClientACK at dial time)
+		}
 		return opcua.Dialer(d)
 	case "Lifetime":
 		return opcua.Lifetime(dur * 100)
@@ -172,6 +176,15 @@ func (e *env) mk(i inst) opcua.Option {
 	return nil
 }
 
+// nilACKDialer: the Dialer instance with this seed carries no ClientACK. A buffer
+// option applied after it dereferences nil (a panic that is not C23's business),
+// so the generator never lets one follow in the same client.
+func nilACKDialer(seed uint32) bool { return seed%4 == 3 }
+
+func isBufferOption(n string) bool {
+	return n == "MaxMessageSize" || n == "MaxChunkCount" || n == "ReceiveBufferSize" || n == "SendBufferSize"
+}
+
 // ---------------------------------------------------------------- dumps
 
 func dumpMap(cfg *opcua.Config) map[string]string {
@@ -225,7 +238,7 @@ type client struct {
 
 func parseProg(line string) ([]client, bool) {
 	t := strings.Fields(line)
-	if len(t) < 2 || t[0] != "prog" || t[1] != "c" {
+	if len(t) < 2 || (t[0] != "prog" && t[0] != "progr") || t[1] != "c" {
 		return nil, false
 	}
 	var cs []client
@@ -244,9 +257,12 @@ func parseProg(line string) ([]client, bool) {
 	return cs, true
 }
 
-func progLine(cs []client) string {
+func progLine(cs []client, reuse bool) string {
 	var sb strings.Builder
 	sb.WriteString("prog")
+	if reuse {
+		sb.WriteString("r")
+	}
 	for _, c := range cs {
 		sb.WriteString(" c")
 		for _, i := range c.insts {
@@ -293,11 +309,24 @@ func (e *env) run(line string) {
 	// ---- 1. the real program
 	e.resetDefaults()
 	cfgs := make([]*opcua.Config, len(cs))
+	// "progr": one Option VALUE per distinct instance, applied to every client that lists it (the
+	// usual slice of base options) — except Dialer(d), where sharing d is the caller's own doing
+	reuse := strings.HasPrefix(line, "progr ")
+	cache := map[inst]opcua.Option{}
 	for k, c := range cs {
 		opts := make([]opcua.Option, len(c.insts))
 		for j, i := range c.insts {
-			opts[j] = e.mk(i)
+			if o, ok := cache[i]; ok && reuse && i.name != "Dialer" {
+				opts[j] = o
+				e.r.Hit("option-value-applied-to-several-clients")
+			} else {
+				opts[j] = e.mk(i)
+				cache[i] = opts[j]
+			}
 			e.r.Hit("opt:" + i.name)
+			if i.name == "Dialer" && nilACKDialer(i.seed) {
+				e.r.Hit("dialer-without-client-ack")
+			}
 		}
 		var cl *opcua.Client
 		var err error
@@ -313,12 +342,16 @@ func (e *env) run(line string) {
 		}
 	}
 	final := make([]map[string]string, len(cs))
+	objs := make([]map[uintptr]string, len(cs)+1) // address -> path of every struct object a configuration reaches
 	for k, cfg := range cfgs {
 		if cfg != nil {
 			final[k] = dumpMap(cfg)
+			objs[k] = objectAddrs(cfg, final[k])
 		}
 	}
-	next := dumpMap(opcua.VerifNewConfig()) // what a client created now would start from
+	nextCfg := opcua.VerifNewConfig()
+	next := dumpMap(nextCfg) // what a client created now would start from
+	objs[len(cs)] = objectAddrs(nextCfg, next)
 	e.resetDefaults()
 
 	var rep []string
@@ -363,6 +396,21 @@ func (e *env) run(line string) {
 		for p, v := range final[k] {
 			if isolated[k][p] != v {
 				bad = append(bad, fmt.Sprintf("client %d reads %s = %s, its own options on pristine defaults give %s", k, p, v, isolated[k][p]))
+			}
+		}
+	}
+	// no two clients (nor a client and the defaults of the next one) reach the same object:
+	// a shared object is a leak waiting for the first write through it
+	for a := 0; a < len(objs); a++ {
+		for b := a + 1; b < len(objs); b++ {
+			for addr, pa := range objs[a] {
+				if pb, ok := objs[b][addr]; ok {
+					who := fmt.Sprintf("client %d", b)
+					if b == len(cs) {
+						who = "the defaults of the next client"
+					}
+					bad = append(bad, fmt.Sprintf("client %d (%s) and %s (%s) point to the same object", a, pa, who, pb))
+				}
 			}
 		}
 	}
@@ -466,6 +514,20 @@ func (e *env) run(line string) {
 
 func has(m map[string]string, k string) bool { _, ok := m[k]; return ok }
 
+// objectAddrs: the struct objects (paths with leaves below them) a configuration
+// reaches, by address. Byte/string slices and opaque keys are values the caller
+// may pass to several clients and are leaves of the dump: not included.
+func objectAddrs(cfg *opcua.Config, dump map[string]string) map[uintptr]string {
+	out := map[uintptr]string{}
+	for p, addr := range opcua.VerifConfigPointers(cfg) {
+		if has(dump, p) {
+			continue // a leaf (slice, key)
+		}
+		out[addr] = p
+	}
+	return out
+}
+
 func decodeReport(rep string) string {
 	if rep == "-" {
 		return "nothing differs from the pristine defaults"
@@ -533,17 +595,42 @@ func (e *env) genProg() string {
 	n := 1 + rnd.Intn(4)
 	cs := make([]client, n)
 	focus := rnd.Chance(50) // half of the programs concentrate on the dialer / buffer options
-	for k := range cs {
-		m := rnd.Intn(5)
-		for j := 0; j < m; j++ {
-			name := optionNames[rnd.Intn(len(optionNames))]
-			if focus && rnd.Chance(60) {
-				name = []string{"MaxMessageSize", "MaxChunkCount", "ReceiveBufferSize", "SendBufferSize", "Dialer", "DialTimeout"}[rnd.Intn(6)]
-			}
-			cs[k].insts = append(cs[k].insts, inst{name, uint32(rnd.Intn(1000))})
+	reuse := rnd.Chance(30) // a slice of base options whose VALUES are applied to several clients
+	var base []inst
+	pick := func() inst {
+		name := optionNames[rnd.Intn(len(optionNames))]
+		if focus && rnd.Chance(60) {
+			name = []string{"MaxMessageSize", "MaxChunkCount", "ReceiveBufferSize", "SendBufferSize", "Dialer", "DialTimeout"}[rnd.Intn(6)]
+		}
+		if reuse && rnd.Chance(50) {
+			name = []string{"AuthUsername", "AuthAnonymous", "AuthCertificate", "AuthIssuedToken", "SecurityFromEndpoint", "AuthPolicyID", "ApplicationName", "Locales"}[rnd.Intn(8)]
+		}
+		return inst{name, uint32(rnd.Intn(1000))}
+	}
+	if reuse {
+		for j := 1 + rnd.Intn(3); j > 0; j-- {
+			base = append(base, pick())
 		}
 	}
-	return progLine(cs)
+	for k := range cs {
+		if reuse && rnd.Chance(80) {
+			cs[k].insts = append(cs[k].insts, base...)
+		}
+		m := rnd.Intn(5)
+		for j := 0; j < m; j++ {
+			cs[k].insts = append(cs[k].insts, pick())
+		}
+		// no buffer option after a dialer without ClientACK (nil dereference, see nilACKDialer)
+		noACK := false
+		for j, i := range cs[k].insts {
+			if i.name == "Dialer" {
+				noACK = nilACKDialer(i.seed)
+			} else if noACK && isBufferOption(i.name) {
+				cs[k].insts[j] = inst{"DialTimeout", i.seed}
+			}
+		}
+	}
+	return progLine(cs, reuse)
 }
 
 func main() {
@@ -633,7 +720,8 @@ func main() {
 		r.Notes = append(r.Notes, "wire observation skipped: "+hel)
 	}
 	want := []string{"clients:1", "clients:2", "clients:3", "clients:4", "client-construction-fails", "step:redirect-to-caller-object",
-		"step:redirect-fresh", "oracle:isolated", "default-dialer-buffer-option-used", "wire:second-client-sends-defaults"}
+		"step:redirect-fresh", "oracle:isolated", "default-dialer-buffer-option-used", "wire:second-client-sends-defaults",
+		"dialer-without-client-ack", "option-value-applied-to-several-clients"}
 	for _, n := range optionNames {
 		want = append(want, "opt:"+n)
 	}
